@@ -4,9 +4,12 @@ The harness builds the float log-odds matrices exactly as fimo does (numpy, same
 every entry to Coq as an exact dyadic rational (integer numerator over one 2^K per call),
 integerises with the same numpy.round, and prints the implementation's hits with their float
 score / p-value converted exactly.  All comparing (tolerances, ambiguous band) is done in Coq."""
+import json
 import math
 import os
 import shutil
+import subprocess
+import sys
 from fractions import Fraction
 
 import numpy
@@ -68,7 +71,8 @@ def one_hot(seqs):
     return X
 
 
-def run_impl(inp):
+def call_fimo(inp):
+    """one fimo() call; returns (result, names, seqnames, path)"""
     import numba
     import torch
     from tangermeme.tools.fimo import fimo
@@ -97,8 +101,34 @@ def run_impl(inp):
         res = fimo(motifs, sequences, bin_size=inp['bin'], eps=inp['eps'], threshold=inp['thr'],
                    reverse_complement=inp['rc'], return_counts=(mode == 'counts'),
                    dim=1 if mode == 'dim1' else 0)
+        return res, names, seqnames
+    finally:
+        if path:
+            for p in (path, path + '.fai'):
+                try:
+                    os.remove(p)
+                except OSError:
+                    pass
+
+
+def run_local(inp):
+    try:
+        # earlier calls in the same process on the same motif set with other parameters
+        # (inp['pre']: list of overrides); their results are dropped, only their side effects on
+        # module-level state can matter for the call that is checked
+        for ov in inp.get('pre', []):
+            try:
+                call_fimo(dict(inp, **ov))
+            except Exception:
+                pass
+        res, names, seqnames = call_fimo(inp)
+        mode = inp['mode']
+        try:
+            scan = [int(x) for x in float_scan(inp)]
+        except Exception:
+            scan = [0, 0, 0]
         if mode == 'counts':
-            return {'ok': True, 'counts': [int(x) for x in res]}
+            return {'ok': True, 'counts': [int(x) for x in res], 'scan': scan}
         sidx = {nm: i for i, nm in enumerate(seqnames)}
         groups = []
         for df in res:
@@ -118,16 +148,59 @@ def run_impl(inp):
             groups.append(g)
         if mode == 'dim1':
             groups.sort(key=lambda g: (min(h[1] for h in g) if g else -1))
-        return {'ok': True, 'groups': groups}
+        return {'ok': True, 'groups': groups, 'scan': scan}
     except Exception as e:
-        return {'ok': False, 'err': repr(e)[:300]}
-    finally:
-        if path:
-            for p in (path, path + '.fai'):
-                try:
-                    os.remove(p)
-                except OSError:
-                    pass
+        return {'ok': False, 'err': repr(e)[:300], 'scan': [0, 0, 0]}
+
+
+# compiled numba kernels do not bounds-check: every implementation call runs in one long-lived
+# worker process (so that module-level state persists from call to call, as in a user's session);
+# if the interpreter dies the case is a failing input and the worker is restarted
+_WORKER = None
+
+
+def _worker():
+    global _WORKER
+    if _WORKER is None or _WORKER.poll() is not None:
+        env = dict(os.environ, VERIF_FIMO_WORKER='1')
+        _WORKER = subprocess.Popen([sys.executable, '-W', 'ignore', '-m', 'harness.c12', '--worker'],
+                                   stdin=subprocess.PIPE, stdout=subprocess.PIPE,
+                                   stderr=subprocess.DEVNULL, text=True, cwd=C.VERIF, env=env)
+    return _WORKER
+
+
+def run_impl(inp):
+    global _WORKER
+    if os.environ.get('VERIF_FIMO_WORKER') == '1':
+        return run_local(inp)
+    w = _worker()
+    line = ''
+    try:
+        w.stdin.write(json.dumps(inp) + '\n')
+        w.stdin.flush()
+        while True:
+            line = w.stdout.readline()
+            if not line or line.startswith('@@'):
+                break
+    except (BrokenPipeError, OSError):
+        line = ''
+    if not line:
+        try:
+            w.kill()
+        except Exception:
+            pass
+        rc = w.wait()
+        _WORKER = None
+        return {'ok': False, 'crash': True, 'scan': [0, 0, 0],
+                'err': 'CRASH: the interpreter died during the call (exit %s)' % rc}
+    return json.loads(line[2:])
+
+
+def worker_main():
+    for line in sys.stdin:
+        out = run_local(json.loads(line))
+        sys.stdout.write('@@' + json.dumps(out) + '\n')
+        sys.stdout.flush()
 
 
 # ------------------------------------------------------------------------------------------------
@@ -202,29 +275,16 @@ def float_scan(inp):
     return n_win, n_hit, n_amb
 
 
-_scan_cache = {}
-
-
-def scan_info(inp):
-    key = id(inp)
-    if key not in _scan_cache:
-        try:
-            _scan_cache[key] = float_scan(inp)
-        except Exception:
-            _scan_cache[key] = (0, 0, 0)
-    return _scan_cache[key]
-
-
 def nontrivial(inp, out):
-    n_win, n_hit, _ = scan_info(inp)
+    n_win, n_hit, _ = out.get('scan', [0, 0, 0])
     return bool(out['ok']) and 0 < n_hit < n_win
 
 
 def hist_key(inp, out):
-    _, _, n_amb = scan_info(inp)
-    return '%s/%s/rc%d/%s/t%d/amb%d' % (inp['input'], inp['mode'], inp['rc'],
-                                        'ok' if out['ok'] else 'raise', min(inp.get('threads', 1), 16) // 4 * 4,
-                                        1 if n_amb else 0)
+    n_amb = out.get('scan', [0, 0, 0])[2]
+    return '%s%s/%s/rc%d/%s/t%d/amb%d' % (inp['input'], '+pre' if inp.get('pre') else '', inp['mode'], inp['rc'],
+                                          'ok' if out['ok'] else ('crash' if out.get('crash') else 'raise'),
+                                          min(inp.get('threads', 1), 16) // 4 * 4, 1 if n_amb else 0)
 
 
 def tags(inp, out):
@@ -271,7 +331,7 @@ def base_case(rng, quick=True):
         motifs.append(rand_pwm(rng, w, rng.choice([0.05, 0.1, 0.2, 0.5, 1.0])))
     return {'kind': 'random', 'motifs': motifs, 'dtype': 'f32' if rng.random() < 0.8 else 'f64',
             'bin': rng.choice([0.1, 0.1, 0.1, 0.05, 0.2, 0.5, 1.0]),
-            'eps': rng.choice([1e-4, 1e-4, 1e-4, 1e-6, 1e-3, 1e-2]),
+            'eps': rng.choice([1e-4, 1e-4, 1e-4, 1e-6, 1e-3, 1e-2, 0.1]),
             'thr': rng.choice([1e-1, 1e-2, 1e-3, 1e-4, 1e-4, 1e-5, 1e-6, 10 ** rng.uniform(-6, -1)]),
             'rc': rng.random() < 0.7, 'mode': rng.choice(['dim0', 'dim0', 'dim1', 'counts']),
             'threads': rng.choice([1, 2, 3, 4, 8, 16, rng.randint(1, 16)])}
@@ -348,6 +408,86 @@ def variants(rng, c):
         yield d
 
 
+def exact_b0(m, dtype, eps, b, thr):
+    """threshold bin of a motif by an exact integer DP (python ints): least bin whose tail
+    probability is below thr; used only to steer the generator towards threshold bin 0"""
+    lo = log_odds(m, dtype, eps)
+    im = numpy.round(lo.astype(numpy.float64) / numpy.float64(b)).astype(numpy.int64)
+    dist = {0: 1}
+    for j in range(im.shape[1]):
+        nd = {}
+        for sc, cnt in dist.items():
+            for a in range(4):
+                t = sc + int(im[a, j])
+                nd[t] = nd.get(t, 0) + cnt
+        dist = nd
+    total = 4 ** im.shape[1]
+    thr = Fraction(thr)
+    tail = 0
+    best = max(dist) + 1
+    for sc in sorted(dist, reverse=True):
+        tail += dist[sc]
+        if Fraction(tail, total) < thr:
+            best = sc
+        else:
+            break
+    # bins between attainable scores share the tail of the next attainable score above
+    lower = [sc for sc in dist if sc < best]
+    return (max(lower) + 1) if lower else best
+
+
+def n_run_cases(rng, quick):
+    """windows made only of unknown characters score exactly 0.0; with a motif / threshold / bin
+    whose threshold bin is exactly 0 the comparison score > thresh is 0.0 > 0.0: no hit"""
+    want = 6 if quick else 30
+    found = tries = 0
+    while found < want and tries < 4000:
+        tries += 1
+        w = rng.choice([3, 4, 5, 6, 7, 8])
+        m = rand_pwm(rng, w, rng.choice([0.2, 0.5, 1.0, 2.0]))
+        b = rng.choice([0.1, 0.1, 0.5, 1.0, 0.2])
+        thr = rng.choice([1e-1, 1e-1, 1e-1, 1e-2, 0.2])
+        eps = rng.choice([1e-4, 1e-3])
+        try:
+            b0 = exact_b0(m, 'f32', eps, b, thr)
+        except Exception:
+            continue
+        if b0 != 0 and not (found % 3 == 2 and abs(b0) == 1):
+            continue
+        found += 1
+        run = 'N' * (w + rng.choice([0, 1, 3, 6]))
+        seqs = [rand_seq(rng, rng.randint(0, 10)) + run + rand_seq(rng, rng.randint(0, 10)),
+                rand_seq(rng, w + 5), run]
+        tens = rng.random() < 0.5
+        if tens:
+            L = max(len(x) for x in seqs)
+            seqs = [x + 'N' * (L - len(x)) for x in seqs]
+        yield {'kind': 'n-run', 'motifs': [m], 'dtype': 'f32', 'bin': b, 'eps': eps, 'thr': thr,
+               'rc': rng.random() < 0.7, 'mode': rng.choice(['dim0', 'dim0', 'dim1', 'counts']),
+               'threads': rng.choice([1, 4]), 'input': 'tensor' if tens else 'fasta', 'seqs': seqs}
+
+
+def multi_call(rng, c):
+    """the same motif set scanned before with one parameter changed (eps, bin_size, threshold,
+    reverse_complement, other sequences): cross-call state must not leak into the checked call"""
+    what = rng.choice(['eps', 'eps', 'eps', 'bin', 'thr', 'rc', 'seqs', 'mode'])
+    if what == 'eps':
+        ov = {'eps': rng.choice([e for e in (1e-6, 1e-4, 1e-3, 1e-2, 0.1) if e != c['eps']])}
+    elif what == 'bin':
+        ov = {'bin': rng.choice([x for x in (0.05, 0.1, 0.2, 0.5, 1.0) if x != c['bin']])}
+    elif what == 'thr':
+        ov = {'thr': rng.choice([x for x in (1e-1, 1e-2, 1e-3, 1e-5) if x != c['thr']])}
+    elif what == 'rc':
+        ov = {'rc': not c['rc']}
+    elif what == 'mode':
+        ov = {'mode': rng.choice([x for x in ('dim0', 'dim1', 'counts') if x != c['mode']])}
+    else:
+        ov = {'seqs': [rand_seq(rng, len(x), 0.05) for x in c['seqs']]}
+    d = dict(c)
+    d['pre'] = [ov] + ([{'eps': rng.choice([1e-5, 1e-2])}] if rng.random() < 0.25 else [])
+    return d
+
+
 def generate(tier, rng):
     quick = tier != 'thorough'
     n = 85 if quick else 450
@@ -355,6 +495,11 @@ def generate(tier, rng):
         c = with_seqs(rng, base_case(rng, quick), planted=(i % 2 == 0))
         for v in variants(rng, c):
             yield v
+        if i % 3 == 0:
+            # a motif set no earlier case has used: the first call that sees it is the pre-call
+            yield multi_call(rng, with_seqs(rng, base_case(rng, quick), planted=(i % 2 == 1)))
+    for v in n_run_cases(rng, quick):
+        yield v
     # thread sweep on one larger input
     for _ in range(1 if quick else 6):
         c = with_seqs(rng, base_case(rng, quick), planted=False)
@@ -366,6 +511,8 @@ def generate(tier, rng):
 
 
 def shrink(inp):
+    # 'pre' (earlier calls in the same process) is never dropped: the worker is long-lived, so a
+    # candidate without it could keep failing only because of state left by the run before it
     if len(inp['motifs']) > 1:
         for k in range(len(inp['motifs'])):
             c = dict(inp)
@@ -393,3 +540,7 @@ def search(rng, disagreeing):
         c = with_seqs(rng, base_case(rng), planted=True)
         c.update(thr=rng.choice([1e-1, 1e-2, 1e-3]))
         yield c
+
+
+if __name__ == '__main__' and '--worker' in sys.argv:
+    worker_main()
